@@ -14,7 +14,6 @@ import (
 	"os"
 	"reflect"
 	"sort"
-	"strings"
 
 	"google.golang.org/protobuf/internal/filedesc"
 	vh "google.golang.org/protobuf/internal/zz_verif_vh"
@@ -154,12 +153,8 @@ func newFile(p *descriptorpb.FileDescriptorProto, r protodesc.Resolver, allow bo
 			panicked = e
 		}
 	}()
-	// finding testdata-path-edition-panic, os.Exit variant: under the cmd/protoc-gen-go/testdata/ escape hatch an
-	// editions file whose edition is UNKNOWN (absent) reaches os.Exit(1) in getFeatureSetFor, which would kill the
-	// harness.  That input is not executed in-process (witnessesC35 runs it in a child process on every run).
-	if strings.HasPrefix(p.GetName(), "cmd/protoc-gen-go/testdata/") && p.GetSyntax() == "editions" && p.GetEdition() == 0 {
-		return nil, nil, "os.Exit(1) in getFeatureSetFor (not executed in-process): unknown value for edition: EDITION_UNKNOWN"
-	}
+	// (Regression note: before 4beace6 an editions file named cmd/protoc-gen-go/testdata/… without an edition reached
+	// os.Exit(1) in getFeatureSetFor; witnessesC35 replays that input in a child process on every run.)
 	fd, err = protodesc.FileOptions{AllowUnresolvable: allow}.New(p, r)
 	return
 }
